@@ -69,7 +69,7 @@ def run(ctx):
     if not binp:
         return
     thorough = ctx.tier == "thorough"
-    ngen = "1500" if thorough else "60"
+    ngen = "1500" if thorough else "120"
     env = {"VERIF_REPO": vcheck.REPO, "C06_BUDGET_S": "1500" if thorough else "40"}
     rc, out, err = ctx.run([binp, "search", "-seed", str(ctx.seed), "-tier", ctx.tier, "-n", ngen],
                            timeout=2400 if thorough else 200, env=env)
